@@ -20,6 +20,7 @@ RULE = (
     "(SD(sid), root key id|NULL, l0,l1,l2 of the blob | -1,-1,-1) followed at the 4-byte boundary by VT{PCONTEXT(ISD_KEY,NDR64),END}. Results: unprotect == plaintext (seed keys) / ValueError (public key); protect "
     "opens with the reference decryptor and names the DC's current key. sync and async: identical transcripts (scripted: identical bytes) and results. state = configuration; transition = one PDU exchange."
     ' Two further dimensions: the caller passes an empty KeyCache of its own; the DH ephemeral private key is chosen so that the shared secret begins with a zero octet.'
+    ' Further dimensions: a DC without bind time feature negotiation, no server argument (SRV lookup through the DNS seam), the sync API called from inside a running event loop.'
 )
 ASSUME = ["reference DC = my reading of MS-GKDI / MS-RPCE, calibrated on the captured material", "pyspnego NTLM for the authenticated runs"]
 BOUND = {"quick": "every configuration with <= 2 deviations from the base over 19 dimensions (10 of the caller / key configuration, 9 of the conforming DC's shape; 39 alternative values) + (hash x kind x op x api) product", "thorough": "<= 3 deviations over the same 19 dimensions; (25 positions x 4 hashes x 4 kinds x op x api), other dimensions cycled"}
